@@ -378,7 +378,7 @@ class Decay(BaseDecay):  # add useful methods to BaseDecay
         """
         return tuple([l for l, s in self.get_ls_list()])
 
-    @functools.lru_cache()
+    @simple_cache_fun  # per object: equal names do not imply equal spins
     def get_min_l(self):
         """
         The minimal l in the LS coupling
@@ -403,7 +403,7 @@ class Decay(BaseDecay):  # add useful methods to BaseDecay
             ret.append((name_r, name_i))
         return ret
 
-    @functools.lru_cache()
+    @simple_cache_fun  # per object: equal names do not imply equal spins
     def get_cg_matrix(self):  # CG factor inside H
         """
         The matrix indexed by :math:`[(l,s),(\\lambda_b,\\lambda_c)]`. The matrix element is
